@@ -33,7 +33,7 @@ type concCase struct {
 
 // serialOrderExists asks the Model for every serial order compatible with real time whether it
 // explains the responses and the final state.
-func serialOrderExists(c *concCase, modelKind string, same func(impl, model string) bool) (bool, error) {
+func serialOrderExists(c *concCase, modelKind string, same func(impl, model string) bool, post func([]string) []string) (bool, error) {
 	perms := conc.Perms(c.nops, c.run.Order)
 	var all []string
 	for _, pm := range perms {
@@ -57,7 +57,7 @@ func serialOrderExists(c *concCase, modelKind string, same func(impl, model stri
 	}
 	per := 1 + len(c.setup) + 1 + c.nops + 5*c.nops + 1 + len(c.final)
 	for k, pm := range perms {
-		out := res[k*per : (k+1)*per]
+		out := post(res[k*per : (k+1)*per])
 		base := 1 + len(c.setup) + 1 + c.nops
 		ok := true
 		for j, i := range pm {
@@ -87,7 +87,8 @@ type concProg interface {
 	// Mk returns the factory of fresh systems; setupOut receives the prefix's responses of the latest system.
 	Mk(setupOut *[]string) func(y func(string)) conc.System
 	Final(sys conc.System) []string
-	// Post canonicalises all implementation lines of one run together (generation ranks).
+	// Post canonicalises all lines of one run together, the implementation's and likewise the
+	// Model's (GCS: generation ranks per object).
 	Post(lines []string) []string
 	Opts() conc.Opts
 	Sched() []int
@@ -176,7 +177,7 @@ func (b gcsProg) Mk(setupOut *[]string) func(y func(string)) conc.System {
 	return b.p.MkSys(setupOut, b.base)
 }
 func (b gcsProg) Final(sys conc.System) []string { return gcs.ExecFinal(sys, b.p.FinalReads()) }
-func (b gcsProg) Post(lines []string) []string   { return gcs.RankGens(nil, lines) }
+func (b gcsProg) Post(lines []string) []string   { return gcs.RankGensPerObject(lines) }
 func (b gcsProg) Opts() conc.Opts {
 	if b.p.Tear {
 		return conc.Opts{N: len(b.p.Ops), Cls: gcs.TearClassify, LazyAcquire: true}
@@ -395,7 +396,7 @@ func cmdConc(kind string, args []string) {
 		}
 		off := 0
 		for _, c := range cases {
-			model := res[off : off+len(c.lines)]
+			model := p.Post(res[off : off+len(c.lines)])
 			off += len(c.lines)
 			rep.Evaluations += len(c.run.Lines)
 			bad := -1
@@ -412,7 +413,7 @@ func cmdConc(kind string, args []string) {
 				rep.Samples = append(rep.Samples, strings.Join(c.ops, " || ")+"  schedule "+conc.SchedString(c.sched)+"  =>  "+strings.Join(c.run.Resp, " | "))
 			}
 			if bad >= 0 && !p.Strict() && c.run.Stalled == "" {
-				if serial, err := serialOrderExists(c, modelKind, p.Same); err == nil && serial {
+				if serial, err := serialOrderExists(c, modelKind, p.Same, p.Post); err == nil && serial {
 					rep.Extra["explained_by_another_serial_order"]++
 					bad = -1
 				}
@@ -420,7 +421,7 @@ func cmdConc(kind string, args []string) {
 			if bad >= 0 {
 				rep.Extra["disagreeing_interleavings"]++
 				if rejects < 2 && len(rep.Mismatches) < 40 {
-					serial, err := serialOrderExists(c, modelKind, p.Same)
+					serial, err := serialOrderExists(c, modelKind, p.Same, p.Post)
 					verdict := ""
 					if c.run.Stalled != "" {
 						rep.Mismatches = append(rep.Mismatches, core.Mismatch{Config: p.Config(), Ops: c.lines[:bad+1], Impl: c.impl[:bad+1],
